@@ -13,11 +13,16 @@ RULE = ("requests are drawn from VERIF_SEED: objective class x starting point/of
         "decade x dimension x overload; a case is non-trivial when the implementation returns or exits with a "
         "diagnostic and it is counted once per distinct (op, class, dimension, offset decade, step decade, tolerance decade, "
         "outcome, trace-length bucket)")
-CORR_ONLY = ["convergence 'within the distance implied by the tolerance' on unimodal 1-D objectives and strictly convex "
-             "quadratic bowls (no theorem: Nelder-Mead has no general convergence proof) - decided by the oracle on the "
-             "implementation's output on the stated classes",
+CORR_ONLY = ["convergence 'within the distance implied by the tolerance' (no theorem: Nelder-Mead has no general convergence "
+             "proof): decided by the oracle on the implementation's output. 1-D (Find_Minimum/Find_Maximum on quadratic, quartic-flat, "
+             "rational, asymmetric, Lennard-Jones-like, cosh-like bowls): |x - x*| <= 4.25*(tol*|x*| + 2^-52) or f(x) within 64 running "
+             "rounding-error bounds of the minimum. n-D quadratic bowls (proper simplex of ndim+1 vertices): f(result) - f* <= "
+             "512*ftol*(|f(result)| + |f*| + 1e-10 + largest initial excess) + rounding; enforced for dims 1-2 with step/distance >= 0.03 "
+             "(calibrated: worst 33/512 over 4269 runs); the failures for step/distance < 0.03 and for dims >= 3 are the genuine known "
+             "findings C11-nm-premature-termination / C11-nm-collapse-3d (emitted under two fixed clauses)",
              "cosh-like bowls: evaluated by the harness only (the rational model answers undef), oracle clauses only",
-             "brent_in_bracket under IEEE rounding (proved for exact arithmetic only)"]
+             "brent_in_bracket under IEEE rounding (theorem brent_in_bracket is for exact arithmetic; bookkeeping half for every rnd)",
+             "psum = column sums under IEEE rounding (theorem nm_psum_colsums is for exact arithmetic)"]
 ASSUMPTIONS = ["the objective handed to the library is the double-precision function described by the request; "
                "'not worse than the start' is evaluated on that function (bit-exact re-evaluation), the convergence clause on "
                "its exact rational value with a running rounding-error allowance",
@@ -457,6 +462,35 @@ def gen_nd(rng, n, R, ctx, maxdim=6):
                      (1e-10, [[0.0, 0.0], [1.0, 0.0], [0.0, 1.0]]), (1e-3, [[3.0, 4.0], [3.5, 4.0], [3.0, 4.5], [3.5, 4.5]])]:
         R.append(req_nd("c11.nm", ftol, "%d %s" % (len(pp), " ".join(lst(r) for r in pp)), q2, mq))
     R.append(req_nd("c11.nm1", 1e-6, "%s %s" % (lst([1.0, 2.0]), hx(0.5)), [k(1.0)], meta_tokens("const") + ["dim=2"]))
+    # exact ties: the reflected point has exactly the value of the highest vertex (decides `ytry < y[ihi]` vs `<=`),
+    # equal vertex values (decide the `<=` / `>` of the ilo / ihi / inhi scan)
+    dw = p_multiN(1, [(1.0, 0.0)])          # (x^2 - 1)^2: vertices 2 and 0, reflection of 2 through 0 is -2
+    R.append(req_nd("c11.nm", 1e-6, "2 %s %s" % (lst([2.0]), lst([0.0])), dw, meta_tokens("tie") + ["dim=1"]))
+    R.append(req_nd("c11.nm", 1e-4, "2 %s %s" % (lst([0.0]), lst([2.0])), dw, meta_tokens("tie") + ["dim=1"]))
+    for t in range(10):
+        n = 1 + t % 4
+        c = [dy(rng, -4, 4, 2) for _ in range(n)]
+        h = 2.0 ** rng.randint(-2, 2)
+        prog = p_quadN([[1.0 if i == j else 0.0 for j in range(n)] for i in range(n)], [1.0] * n, c, rng.choice([0.0, 1.0]))
+        top = list(c); top[0] = c[0] + 2 * h
+        others = []
+        if n == 1:
+            others = [list(c)]
+            top[0] = c[0] + h
+            others = [[c[0]]]
+            # reflection of c+h through c is c-h: same value
+        else:
+            a = list(c); a[1] = c[1] + h
+            b = list(c); b[1] = c[1] - h
+            others = [a, b] + [list(c) for _ in range(n - 2)]
+            for i, o in enumerate(others[2:]):
+                o[(2 + i) % n] = c[(2 + i) % n]      # extra vertices at the centre (value 0)
+        pp = [top] + others
+        rng.shuffle(pp)
+        R.append(req_nd("c11.nm", rng.choice([1e-3, 1e-6, 1e-9]), "%d %s" % (len(pp), " ".join(lst(r) for r in pp)), prog,
+                        meta_tokens("tie") + ["dim=%d" % n]))
+    # minimal witness of the known finding C11-nm-premature-termination: x^2+y^2 from (1000,1000), delta 1e-3, ftol 1e-5
+    R.append(req_nd("c11.nm1", 1e-5, "%s %s" % (lst([1000.0, 1000.0]), hx(1e-3)), q2, meta_tokens("quadN", [0.0, 0.0], 0.0) + ["dim=2"]))
 
 
 def generate(tier, seed, ctx):
@@ -467,7 +501,7 @@ def generate(tier, seed, ctx):
         gen_nd(rng, 900, R, ctx)
     else:
         gen_1d(rng, 400, R, ctx)
-        gen_nd(rng, 140, R, ctx)
+        gen_nd(rng, 100, R, ctx)
     ctx["results"] = {}
     ctx["groups"] = {}
     return R
@@ -495,11 +529,10 @@ def trace_compare(ti, tm, bits, stopbits, ctx, what):
     """ti: list of points (tuples of floats) of the implementation, tm: of the model, bits[k]: margin bits of the
     model's k-th evaluation.  Returns (failures, agreed_fully)."""
     n = min(len(ti), len(tm))
-    worst = 0
     for kk in range(n):
-        worst = max(worst, bits[kk])
         if ti[kk] == tm[kk]:
             continue
+        worst = bits[kk]            # margin of the decisions that led to this evaluation
         prev = tm[kk - 1] if kk else tm[kk]
         step = max(abs(a - b) for a, b in zip(tm[kk], prev))
         mag = max(abs(a) for a in tm[kk])
@@ -514,7 +547,7 @@ def trace_compare(ti, tm, bits, stopbits, ctx, what):
                          "evaluation %d: impl %r model %r (margin bits %d)" % (kk, ti[kk], tm[kk], worst))], False
     if len(ti) != len(tm):
         nxt = bits[n] if len(tm) > n else stopbits
-        if max(worst, nxt) >= TINY_BITS:
+        if nxt >= TINY_BITS:
             ctx["excused"] += 1
             bump(ctx, "trace.excused")
             return [], False
@@ -556,21 +589,44 @@ def conv_1d(R, x, ctx):
         x, best[0], best[1], float(v - fs), float(64 * (e + (es or 0))))
 
 
-KCONV_ND = 64.0
+KCONV_ND = 512          # calibrated: worst observed 33 over 4269 bowl runs (dims 1-2, step/distance >= 0.03), x16
+SD_MIN = 0.03
+CL_PREMATURE = ("minimize: stops far from the minimiser of a quadratic bowl when the initial simplex is much smaller than "
+                "its distance to the minimiser (fractional function-value stopping rule)")
+CL_COLLAPSE = ("minimize: stops far from the minimiser of a quadratic bowl in three or more dimensions (simplex collapses, "
+               "fractional function-value stopping rule)")
+CL_CONV = "minimize: not within the tolerance-implied distance of the minimiser (quadratic bowl, dimension 1-2)"
 
 
-def conv_nd(R, p, ctx):
+def conv_nd(R, I, ctx):
+    """convergence clause on strictly convex quadratic bowls, evaluated on exact values: the excess of f(result) over
+    the minimum is at most K*ftol*(|f(result)| + |f*| + TINY + largest initial excess), plus a rounding allowance.
+    Claimed for proper simplices (ndim+1 vertices).  Returns (clause, message) or None."""
     prog = R["prog"]
-    v, e = ev_exact(prog, p)
+    pp = simplex_of(R)
+    nd = I["nd"]
+    if len(pp) != nd + 1 or "fixed" in R["meta"]:
+        return None
+    v, e = ev_exact(prog, I["pmin"])
     fs = Fraction(R["fs"])
     _, es = ev_exact(prog, R["xs"])
-    gap = v - fs
-    allow = Fraction(KCONV_ND) * Fraction(R["ftol"]) * (abs(v) + abs(fs) + Fraction(1, 10 ** 10)) + 64 * (e + es)
-    ratio = float(gap / allow) if allow > 0 else math.inf
-    ctx["stats"]["convND.max_ratio_x1000"] = max(ctx["stats"].get("convND.max_ratio_x1000", 0), int(ratio * 1000))
+    gw = max(ev_exact(prog, r)[0] for r in pp) - fs
+    gap = v - fs - 64 * (e + es)
+    allow = Fraction(KCONV_ND) * Fraction(R["ftol"]) * (abs(v) + abs(fs) + Fraction(1, 10 ** 10) + gw)
+    size0 = max(max(abs(a - b) for a, b in zip(r, pp[0])) for r in pp)
+    dist0 = max(abs(a - b) for a, b in zip(pp[0], R["xs"]))
+    small = dist0 > 0 and size0 < SD_MIN * dist0
+    regime = "small-simplex" if small else ("dim>=3" if nd >= 3 else "dim<=2")
+    bump(ctx, "convND." + regime)
     if gap <= allow:
+        if regime == "dim<=2" and allow > 0:
+            key = "convND.dim<=2.max_ratio_permille_of_K"
+            ctx["stats"][key] = max(ctx["stats"].get(key, 0), int(1000 * float(gap / allow)))
         return None
-    return "f(result) exceeds the minimum by %.3g, allowed %.3g (ftol %.3g)" % (float(gap), float(allow), R["ftol"])
+    bump(ctx, "convND." + regime + ".exceeds")
+    msg = "f(result) exceeds the minimum by %.3g, allowed %.3g (ftol %.3g, dim %d, step/distance %.3g, %d evaluations)" % (
+        float(gap), float(allow), R["ftol"], nd, size0 / dist0 if dist0 else math.inf, len(I["tr"]))
+    return (CL_PREMATURE if small else CL_COLLAPSE if nd >= 3 else CL_CONV), msg
 
 
 def compare(rq, impl, model, ctx):
@@ -673,7 +729,7 @@ def oracle_1d(R, impl, ctx):
         if x2 != x or tr2 != tr:
             out.append(fail("prop", "Find_Maximum(f) is not Find_Minimum(-f) bit-for-bit",
                             "max: %r (%d evals)  min of -f: %r (%d evals)" % (x, len(tr), x2, len(tr2))))
-    if R["cls"] in BOWL_1D and "fs" in R and not math.isnan(fx):
+    if R["cls"] in BOWL_1D and "fs" in R and not math.isnan(fx) and R["xl"] != R["xr"]:
         msg = conv_1d(R, x, ctx)
         if msg:
             out.append(fail("prop", name + ": not within the tolerance-implied distance of the minimiser (class %s)" % R["cls"], msg))
@@ -771,9 +827,9 @@ def oracle_nd(R, impl, ctx, rq):
             out.append(fail("prop", name + ": a better evaluated point was discarded (best vertex lost)",
                             "f(result)=%r best evaluated=%r" % (I["fre"], min(allv))))
     if R["cls"] in BOWL_ND and "fs" in R and not math.isnan(I["fre"]):
-        msg = conv_nd(R, I["pmin"], ctx)
-        if msg:
-            out.append(fail("prop", name + ": not within the tolerance-implied distance of the minimiser (quadratic bowl, dim %d)" % I["nd"], msg))
+        r = conv_nd(R, I, ctx)
+        if r:
+            out.append(fail("prop", r[0], r[1]))
     g = R["meta"].get("grp")
     if g:
         ctx.setdefault("groups", {}).setdefault(g, []).append((R["op"], rq, impl))
